@@ -12,7 +12,7 @@
 EXTENDS Require, Json
 
 CONSTANTS NNames,    \* number of module names
-          NameSel,   \* 1: a, b, c   2: a, p.q, p.q.r, p.q.r.s (0 to 3 dots)
+          NameSel,   \* 1: a, b, c   2: a, p.q, p.q.r, p.q.r.s (0 to 3 dots)   3: string, package, x, y, table (host mode)
           PathSel,   \* 1: d1/?.lua;d2/?.lua   2: d1/?.lua;d2/?/init.lua;d3/?/x-?.lua (several marks)
           BehIdx,    \* indices into BehT usable by installed loaders
           Srcs,      \* subset of {"L", "H", "F1", "F2", "F3"}: Lua preload, host PreloadModule, file for template 1 / 2 / 3
@@ -22,8 +22,10 @@ CONSTANTS NNames,    \* number of module names
           MaxHist,
           Gen
 
-AllParts == IF NameSel = 1 THEN <<<<"a">>, <<"b">>, <<"c">>>>
-            ELSE <<<<"a">>, <<"p", "q">>, <<"p", "q", "r">>, <<"p", "q", "r", "s">>>>
+AllParts == CASE NameSel = 1 -> <<<<"a">>, <<"b">>, <<"c">>>>
+              [] NameSel = 2 -> <<<<"a">>, <<"p", "q">>, <<"p", "q", "r">>, <<"p", "q", "r", "s">>>>
+              [] OTHER -> <<<<"string">>, <<"package">>, <<"x">>, <<"y">>, <<"table">>>>   \* host mode
+Host == NameSel = 3     \* the state starts without libraries; the host opens them in any order
 Parts == SubSeq(AllParts, 1, NNames)
 RECURSIVE MapName(_)
 MapName(ps) == IF Len(ps) = 0 THEN <<>> ELSE <<NameStr(Head(ps))>> \o MapName(Tail(ps))
@@ -67,7 +69,7 @@ vars == <<st, hist, res>>
 Clr(s) == [s EXCEPT !.log = <<>>]
 mcview == <<Clr(st), Len(hist)>>
 
-Init == /\ st = InitState(Names, Parts, 0, Path)
+Init == /\ st = InitState(Names, Parts, 0, Path, Host)
         /\ hist = <<>>
         /\ res = NoRes
 
@@ -104,9 +106,24 @@ Do(c) ==
           /\ res' = r.res
           /\ hist' = Append(hist, c)
 
+Opens(lib) == Cardinality({k \in 1..Len(hist) : hist[k].op = "open" /\ hist[k].lib = lib})
+
+(* host mode: libraries opened in any order (the package library possibly   *)
+(* twice), RegisterModule(x) at any time, PreloadModule(y) and require once  *)
+(* base and package are open                                                *)
+HostNext ==
+    \/ \E lib \in {"base", "package", "string", "table"} :
+          /\ LibName(lib) \in NS \/ lib = "base"
+          /\ Opens(lib) < (IF lib = "package" THEN 2 ELSE 1)
+          /\ Do([op |-> "open", n |-> LibName(lib), lib |-> lib])
+    \/ st.loaded["x"] = Nil /\ Do([op |-> "register", n |-> "x", f |-> "f1"])
+    \/ \E i \in BehIdx : st.preload["y"].lid = "none" /\ Do([op |-> "preload", n |-> "y", host |-> TRUE, b |-> i])
+    \/ \E n \in NS : Do([op |-> "req", n |-> n])
+
 Next ==
     /\ Len(hist) < MaxHist
-    /\ \/ \E n \in NS : Do([op |-> "req", n |-> n])
+    /\ IF Host THEN HostNext ELSE
+       \/ \E n \in NS : Do([op |-> "req", n |-> n])
        \/ \E n \in NS : st.loaded[n] # Nil /\ Do([op |-> "clear", n |-> n])
        \/ \E n \in NS, h \in {s \in Srcs : s \in {"L", "H"}}, i \in BehIdx :
              Do([op |-> "preload", n |-> n, host |-> (h = "H"), b |-> i])
@@ -119,6 +136,7 @@ Next ==
              \/ \E n \in NS : 1 \in FileTs /\ Do([op |-> "file", n |-> n, t |-> 1, s |-> 1, syn |-> TRUE, b |-> 1, path |-> FilePath(n, 1, 1)])
              \/ \E n \in NS, k \in {"tbl", "num", "nil"} : Do([op |-> "glob", n |-> n, kind |-> k])
              \/ \E n \in NS : Do([op |-> "register", n |-> n, f |-> IF n = Names[1] THEN "f1" ELSE "f2"])
+             \/ Do([op |-> "open", n |-> Names[1], lib |-> "package"])      \* the host opens the package library again
 
 Spec == Init /\ [][Next]_vars
 
@@ -131,6 +149,13 @@ ValsOf(s) == {Nil, True, False} \cup {Tbl(i) : i \in 1..s.nobj} \cup {Num(i) : i
 CacheHit ==
     \A n \in NS : Truthy(st.loaded[n]) /\ st.loaded[n] # Sent =>
         LET r == DoRequire(Clr(st), n) IN r.res = Ok(st.loaded[n]) /\ r.st = Clr(st)
+
+(* every library the host opened is reachable through require and through   *)
+(* its global name, whatever the order in which things were opened           *)
+HostReachable ==
+    \A n \in NS \cap {"string", "table", "package"} : (n \in st.opened /\ Ready(st)) =>
+        /\ IsTbl(st, st.glob[n]) /\ st.loaded[n] = st.glob[n]
+        /\ DoRequire(Clr(st), n).res = Ok(st.glob[n])
 
 (* the mark of a loader in progress / failed makes require fail, not load   *)
 SentinelIsLoop ==
@@ -219,6 +244,29 @@ ReturnedValueWins ==
         /\ (b.ret = "none" /\ b.post = "none" /\ b.pre = "tbl" /\ Len(b.reqs) = 0) => res'[2] = Tbl(st'.nobj)
         /\ (b.ret = "none" /\ b.post = "nil") => res'[2] = Nil
 
+(* a loader that defines its module with module(name) and returns nothing:   *)
+(* the result is the module table, which is also the global of that name -    *)
+(* on a first load and on every reload                                        *)
+ModuleResultIsGlobalTable ==
+    (IsReq /\ Falsy(Op.n) /\ Found(Op.n).kind = "found" /\ res'[1] = "ok") =>
+        LET b == Found(Op.n).ld.beh IN
+        (b.pre = "module" /\ b.post = "none" /\ b.ret = "none") =>
+            (IsTbl(st', res'[2]) /\ res'[2] = st'.glob[Op.n] /\ st'.loaded[Op.n] = res'[2])
+
+(* after package.loaded[n] = nil the next require runs the loader again (and  *)
+(* every law about a load applies to it: they are stated for any unloaded n)  *)
+UnloadReloads ==
+    (Len(hist) >= 1 /\ hist[Len(hist)].op = "clear" /\ IsReq /\ Op.n = hist[Len(hist)].n /\ Found(Op.n).kind = "found") =>
+        (Len(st'.log) >= 1 /\ st'.log[1] = <<"run", Found(Op.n).ld.lid, Op.n>>)
+
+(* opening a library - the package library in particular, also a second time - *)
+(* forgets nothing: package.loaded and the globals change at most for the      *)
+(* library being opened, and only if it was not there                          *)
+OpenKeepsLoaded ==
+    Op.op = "open" =>
+        \A n \in NS : \/ (st'.loaded[n] = st.loaded[n] /\ st'.glob[n] = st.glob[n])
+                      \/ (n = LibName(Op.lib) /\ ~IsTbl(st, st.loaded[n]))
+
 SelfLoop ==
     (IsReq /\ Falsy(Op.n) /\ Found(Op.n).kind = "found") =>
         LET ld == Found(Op.n).ld
@@ -249,7 +297,7 @@ RegisterReachable ==
 
 StepLaws == /\ CacheStable /\ ResultIsCached /\ SentinelOnlyAfterFailure /\ FailureLeavesSentinel
             /\ PreloadFirst /\ PathOrder /\ DecoyNeverLoaded /\ NothingMeansTrue /\ ReturnedValueWins /\ SelfLoop /\ MutualLoop
-            /\ RegisterReachable
+            /\ RegisterReachable /\ ModuleResultIsGlobalTable /\ UnloadReloads /\ OpenKeepsLoaded
 Laws == [][StepLaws]_vars
 
 (* ---- GEN ------------------------------------------------------------------- *)
